@@ -155,6 +155,13 @@ func evaluate(c *run.Case, t tally, sc *scenario, top *consumer, obs []leafObs, 
 			default:
 				t["arg_invalid_errors"]++
 			}
+			if !o.ok && o.hasBytes {
+				// Whatever was handed out before the error is the source's data.
+				t["prefix_checked"]++
+				if !bytes.HasPrefix(from(avail, off), o.delivered) {
+					viol(o.path, "delivered-not-prefix", "delivered %s is not a prefix of the source's content from offset %d", showBytes(o.delivered), off)
+				}
+			}
 			continue
 		}
 
